@@ -30,6 +30,9 @@ pub enum P<'gc> {
     /// slots behind a `dyn_collect!` trait object
     SD(Gc<'gc, DynNode<'gc>>),
     WD(GcWeak<'gc, DynNode<'gc>>),
+    /// pointer-free lock cell
+    SK(Gc<'gc, LeafCell>),
+    WK(GcWeak<'gc, LeafCell>),
 }
 
 impl<'gc> P<'gc> {
@@ -41,6 +44,7 @@ impl<'gc> P<'gc> {
             P::SC(g) => Some(Gc::erase(g)),
             P::SO(g) => Some(Gc::erase(g)),
             P::SD(g) => Some(Gc::erase(g)),
+            P::SK(g) => Some(Gc::erase(g)),
             _ => None,
         }
     }
@@ -52,6 +56,7 @@ impl<'gc> P<'gc> {
             P::WC(g) => Some(GcWeak::erase(g)),
             P::WO(g) => Some(GcWeak::erase(g)),
             P::WD(g) => Some(GcWeak::erase(g)),
+            P::WK(g) => Some(GcWeak::erase(g)),
             _ => None,
         }
     }
@@ -63,12 +68,14 @@ impl<'gc> P<'gc> {
             P::SC(g) => Gc::as_ptr(g) as *const () as usize,
             P::SO(g) => Gc::as_ptr(g) as *const () as usize,
             P::SD(g) => Gc::as_ptr(g) as *const () as usize,
+            P::SK(g) => Gc::as_ptr(g) as *const () as usize,
             P::W(g) => GcWeak::as_ptr(g) as *const () as usize,
             P::WL(g) => GcWeak::as_ptr(g) as *const () as usize,
             P::WR(g) => GcWeak::as_ptr(g) as *const () as usize,
             P::WC(g) => GcWeak::as_ptr(g) as *const () as usize,
             P::WO(g) => GcWeak::as_ptr(g) as *const () as usize,
             P::WD(g) => GcWeak::as_ptr(g) as *const () as usize,
+            P::WK(g) => GcWeak::as_ptr(g) as *const () as usize,
         }
     }
     pub fn downgrade(self) -> P<'gc> {
@@ -79,6 +86,7 @@ impl<'gc> P<'gc> {
             P::SC(g) => P::WC(Gc::downgrade(g)),
             P::SO(g) => P::WO(Gc::downgrade(g)),
             P::SD(g) => P::WD(Gc::downgrade(g)),
+            P::SK(g) => P::WK(Gc::downgrade(g)),
             x => x,
         }
     }
@@ -90,6 +98,7 @@ impl<'gc> P<'gc> {
             P::WC(g) => g.upgrade(mc).map(P::SC),
             P::WO(g) => g.upgrade(mc).map(P::SO),
             P::WD(g) => g.upgrade(mc).map(P::SD),
+            P::WK(g) => g.upgrade(mc).map(P::SK),
             _ => None,
         }
     }
@@ -101,6 +110,7 @@ impl<'gc> P<'gc> {
             P::WC(g) => g.is_dropped(),
             P::WO(g) => g.is_dropped(),
             P::WD(g) => g.is_dropped(),
+            P::WK(g) => g.is_dropped(),
             _ => false,
         }
     }
@@ -112,12 +122,14 @@ impl<'gc> P<'gc> {
             P::SC(g) => Gc::is_dead(fc, g),
             P::SO(g) => Gc::is_dead(fc, g),
             P::SD(g) => Gc::is_dead(fc, g),
+            P::SK(g) => Gc::is_dead(fc, g),
             P::W(g) => g.is_dead(fc),
             P::WL(g) => g.is_dead(fc),
             P::WR(g) => g.is_dead(fc),
             P::WC(g) => g.is_dead(fc),
             P::WO(g) => g.is_dead(fc),
             P::WD(g) => g.is_dead(fc),
+            P::WK(g) => g.is_dead(fc),
         }
     }
     /// `Gc::resurrect` / `GcWeak::resurrect`: `Ok(())` for a strong pointer, `Err(result)` for a
@@ -130,12 +142,14 @@ impl<'gc> P<'gc> {
             P::SC(g) => Ok(Gc::resurrect(fc, g)),
             P::SO(g) => Ok(Gc::resurrect(fc, g)),
             P::SD(g) => Ok(Gc::resurrect(fc, g)),
+            P::SK(g) => Ok(Gc::resurrect(fc, g)),
             P::W(g) => Err(g.resurrect(fc).map(P::S)),
             P::WL(g) => Err(g.resurrect(fc).map(P::SL)),
             P::WR(g) => Err(g.resurrect(fc).map(P::SR)),
             P::WC(g) => Err(g.resurrect(fc).map(P::SC)),
             P::WO(g) => Err(g.resurrect(fc).map(P::SO)),
             P::WD(g) => Err(g.resurrect(fc).map(P::SD)),
+            P::WK(g) => Err(g.resurrect(fc).map(P::SK)),
         }
     }
     /// The payload id read through a strong pointer (`None`: an empty `OnceCell` carries none).
@@ -147,6 +161,7 @@ impl<'gc> P<'gc> {
             P::SC(g) => Some(Some(g.get().id)),
             P::SO(g) => Some(g.get().map(|b| b.id)),
             P::SD(g) => Some(Some(g.inner.id())),
+            P::SK(g) => Some(Some(g.borrow().id.get())),
             _ => None,
         }
     }
@@ -391,6 +406,35 @@ unsafe impl<'gc> Collect<'gc> for DynNode<'gc> {
         cc.trace(&self.inner);
     }
 }
+
+/// An object whose whole value is a pointer-free lock: `NEEDS_TRACE = false`, so marking blackens
+/// it without tracing; a write through `Gc<RefLock<T>>::borrow_mut` still issues the backward
+/// barrier, which re-queues it when black.  (Its trace runs no client code.)
+pub type LeafCell = RefLock<CellBody>;
+
+pub struct CellBody {
+    pub id: Cell<u64>,
+    pub val: u64,
+}
+
+unsafe impl<'gc> Collect<'gc> for CellBody {
+    const NEEDS_TRACE: bool = false;
+}
+
+impl Drop for CellBody {
+    fn drop(&mut self) {
+        alloc::push_event(Ev::Dropped(self.id.get()));
+        self.id.set(TOMB);
+    }
+}
+
+/// A pointer-free root (`NEEDS_TRACE = false`, via `static_collect!`): the second arena flavour.
+/// Callbacks can only bump the counter (through `mutate_root`); everything allocated in such an
+/// arena is unrooted.
+pub struct PlainRoot {
+    pub counter: u64,
+}
+gc_arena::static_collect!(PlainRoot);
 
 pub const NROOT: usize = 4;
 
